@@ -225,6 +225,9 @@ func Table() []Route {
 			Build: func(fx *Fixture) *s3c.Req {
 				return s3c.PutObject(fx.Alpha, "newkey", []byte("fresh data "+strings.Repeat("x", 3000)))
 			}, PathLike: []string{"bucket", "key"}},
+		// an explicit directory object: an upload route whose (empty) body the backend has no reason to read
+		{ID: "PutDirectoryObject", Method: "PUT", Shape: "object", Mutates: true, Action: "s3:PutObject", ResKind: "object", ACL: "WRITE", Streams: true,
+			Build: func(fx *Fixture) *s3c.Req { return s3c.PutObject(fx.Alpha, "newdir/", nil) }, PathLike: []string{"bucket"}},
 		{ID: "CopyObject", Method: "PUT", Shape: "object", Sub: "copy-source", Mutates: true, Action: "s3:PutObject", ResKind: "object", ACL: "WRITE",
 			Build: func(fx *Fixture) *s3c.Req { return s3c.CopyObject(fx.Alpha, "copied", fx.Alpha, fx.Obj) }, PathLike: []string{"bucket", "key", "copy-source"}},
 		{ID: "UploadPart", Method: "PUT", Shape: "object", Sub: "partNumber+uploadId", Mutates: true, Action: "s3:PutObject", ResKind: "object", ACL: "WRITE", Streams: true,
